@@ -1188,7 +1188,7 @@ fn t_menu(thorough: bool) -> Vec<Act> {
         m.push(Act::RemoveTfield("s0"));
         m.push(Act::SetTlang("abcdefgh-Cyrl-419-fonipa-1abc"));
     }
-    for s in ["en", "und", "und-Latn", "EN_latn-us-1996", "de-valencia-1996"] {
+    for s in ["en", "und", "und-Latn", "EN_latn-us-1996", "de-valencia-1996", "abcdefgh", "abcde-001", "yue"] {
         m.push(Act::SetTlang(s));
     }
     m.push(Act::ClearTlang);
